@@ -141,7 +141,9 @@ func runC18(c *Ctx) {
 	}
 	isConsume := callSuffix("proxy.consumePendingKeepAlive")
 	nw := 0
-	for _, ci := range callsIn(send, func(n string, cc *ssa.CallCommon) bool { return methodName(cc) == "WritePacket" || methodName(cc) == "BufferPacket" || methodName(cc) == "Write" }) {
+	for _, ci := range callsIn(send, func(n string, cc *ssa.CallCommon) bool {
+		return methodName(cc) == "WritePacket" || methodName(cc) == "BufferPacket" || methodName(cc) == "Write"
+	}) {
 		nw++
 		g, n := MustCross(ci, func(e Edge, cond ssa.Value, truth bool) bool { return boolCallEdge(cond, truth, true, isConsume) })
 		c.Check("write-after-hit", "WritePacket@sendKeepAliveToBackend", ci, g && n > 0,
